@@ -1235,6 +1235,10 @@ def wire_level(ctx, tp, thorough):
 DIR_NAMES = ["d", "-old", "-R", "-la", "-1", "-a pub", "--", "-", "a -> b", "Type=dir;", "12:30", ";x", "é٣", "-rw-r--r--", "d.d", "-l -a", "1 none none 5"]
 
 
+CARDS_QUICK = [33, 0, 65, 1, 7, 32, 100, 12, 31]
+CARDS_THOROUGH = [33, 0, 65, 1, 7, 32, 100, 12, 31, 64, 400, 25, 2, 96, 97, 128, 129, 3, 200, 5, 16, 48, 63, 10]
+
+
 def subsecond(rng, sec, now, half):
     """nanoseconds to add to the whole second `sec` of a backend time: near 0, 1/2 and 1 (the last microsecond included).
     0 where the integral model and the float comparison of the half-year switch could differ (age exactly 0 or exactly HALF)"""
@@ -1354,10 +1358,11 @@ async def _wire(ctx, tp, rng, thorough, net):
     from .. import core
 
     H, T = (as_int(x) for x in consts())
-    rounds = 24 if thorough else 8
+    rounds = 25 if thorough else 10
     tmp_root = core.BUILD / "tmp"
     tmp_root.mkdir(parents=True, exist_ok=True)
     nsess = nstat = 0
+    card_seen = {}
     for rnd in range(rounds):
         now = rng.choice([ymd(2024, 3, 1, 0, 0, 30), ymd(2025, 1, 1, 0, 10, 0), ymd(2023, 7, 2, 12, 0, 0), ymd(2100, 3, 1, 5, 0, 0),
                           ymd(2024, 8, 29, 12, 0, 0), ymd(2001, 1, 1, 0, 0, 0), ymd(2024, 2, 29, 23, 59, 30), ymd(2028, 12, 31, 23, 59, 59)]) + rng.choice(DELTAS)
@@ -1365,8 +1370,11 @@ async def _wire(ctx, tp, rng, thorough, net):
         # the LISTED directory: its name comes from the metacharacter pool too and is passed as a bare relative argument
         dname = DIR_NAMES[rnd % len(DIR_NAMES)] if rnd < len(DIR_NAMES) or rng.random() < 0.5 else rng.choice(DIR_NAMES)
         st_round = rnd == rounds - 1  # last round: one set-uid entry without x on disk (the F13b witness at the wire; repaired)
-        ents = tree_spec(rng, now, rng.choice([0, 1, 7, 12, 25]) if not st_round else 4)
-        for backend in ("memory", "pathio", "asyncpathio"):
+        # directory CARDINALITY: 0, 1, a few, and around every multiple of 32 (31, 32, 33, 64, 65), 100, 400 entries
+        card = CARDS_THOROUGH[rnd % len(CARDS_THOROUGH)] if thorough else CARDS_QUICK[rnd % len(CARDS_QUICK)]
+        ents = tree_spec(rng, now, card if not st_round else 4)
+        # the big directories on the in-memory backend only (cheap); up to 33 entries on all three
+        for backend in (("memory", "pathio", "asyncpathio") if len(ents) <= 33 else ("memory",)):
             tdir = None
             if backend == "memory":
                 root = Node("dir", "/", content=[], ctime=1, mtime=1)
@@ -1431,6 +1439,7 @@ async def _wire(ctx, tp, rng, thorough, net):
                         ctx.traces_impl += 1
                         nsess += 1
                         ctx.case(("wire", backend, flavour, raw, rnd, now))
+                        card_seen[len(truth)] = card_seen.get(len(truth), 0) + 1
                         mm = model_listing(ctx, cmd, truth, now, now2, H, T)
                         try:
                             got = await client.list(dname, raw_command=raw)
@@ -1439,7 +1448,7 @@ async def _wire(ctx, tp, rng, thorough, net):
                             if isinstance(e, aioftp.StatusCodeError):
                                 ctx.violation(f"{what}: listing of the existing directory {dname!r} fails: {e!r}"[:300],
                                               {"key": "c07-wire-" + cmd.lower(), "backend": backend, "now": now, "client_now": now2,
-                                               "directory": dname, "entries": truth, "error": repr(e)[:300]})
+                                               "directory": dname, "raw_command": raw, "flavour": flavour, "entries": truth, "error": repr(e)[:300]})
                                 client.close()
                                 continue
                             if mm[:1] != ["err"]:
@@ -1450,6 +1459,7 @@ async def _wire(ctx, tp, rng, thorough, net):
                             else:
                                 ctx.violation(f"{what}: listing raises {e!r}"[:300],
                                               {"key": "c07-wire-" + cmd.lower(), "backend": backend, "now": now, "client_now": now2,
+                                               "directory": dname, "raw_command": raw, "flavour": flavour,
                                                "entries": truth, "error": repr(e)[:300]})
                             client.close()
                             continue
@@ -1498,6 +1508,8 @@ async def _wire(ctx, tp, rng, thorough, net):
             if tdir is not None:
                 shutil.rmtree(tdir, ignore_errors=True)
     ctx.count("wire(simnet):listing sessions (3 backends x {MLSD, LIST, fallback from 502})", nsess)
+    for c_, k_ in sorted(card_seen.items()):
+        ctx.count(f"wire(simnet):directories with {c_} entries (sessions)", k_)
     ctx.count("wire(simnet):stat() calls (MLST / listing fallback)", nstat)
 
 
